@@ -1,7 +1,7 @@
 package main
 
-// c09.docs: the real Server with a workspace root, driven by didOpen / didChange / didSave
-// notifications; after every notification the view of Server.Workspace() is recorded (the same
+// c09.docs: the real Server with a workspace root, driven by didOpen / didChange / didSave /
+// didClose notifications; after every notification the view of Server.Workspace() is recorded (the same
 // canonical view as C12's).  Tied to the model HL/Model/WsDocs.lean; the oracle demands that
 // the workspace is, after every notification, the workspace of what the CLIENT sees (buffers
 // over disk): opening a document with a text that differs from the file on disk included.
@@ -80,6 +80,9 @@ func c09DocsRun(c *Ctx, files []c12File, evs []c09DocEv) map[string]any {
 				cl.wait()
 				open[e.Name] = text
 			}
+		case "close":
+			_ = srv.DidClose(ctx, &protocol.DidCloseTextDocumentParams{TextDocument: protocol.TextDocumentIdentifier{URI: u}})
+			delete(open, e.Name)
 		default: // save: the editor writes the buffer, then notifies
 			if t, ok := open[e.Name]; ok {
 				c12Write(dir, e.Name, t)
@@ -157,6 +160,10 @@ func genC09Docs(c *Ctx) {
 				opened[j] = true
 			case r.IntN(4) == 0:
 				evs = append(evs, c09DocEv{"save", names[j], ""})
+			case r.IntN(5) == 0:
+				// closed, with or without unsaved edits; it may be opened again later
+				evs = append(evs, c09DocEv{"close", names[j], ""})
+				opened[j] = false
 			default:
 				evs = append(evs, c09DocEv{"change", names[j], text})
 			}
